@@ -1097,6 +1097,11 @@ class Interp:
                 c_ = m_.classes().get(o.cls)
                 if c_ is not None and self.class_val(m_, c_).kind == "enum":
                     return self.class_attr(self.class_val(m_, c_), attr, o, site)
+        if isinstance(o, AHash) and attr in ("digest_size", "block_size", "name"):
+            if attr == "name":
+                return Tmpl.lit(o.algo)
+            if attr == "digest_size" and _digest_size(o.algo) is not None:
+                return _digest_size(o.algo)
         if isinstance(o, (Tmpl, AList, ASet, ADict, Sym, StrBuf, RePattern, AHash, ABytes, ADigest)):
             return BoundMethod(o, attr)
         if isinstance(o, ExtVal):
@@ -1433,7 +1438,17 @@ class Interp:
                 if isinstance(op, ast.Mult):
                     return ABits(bits.digest, bits.byteorder, bits.scale * k)
                 if isinstance(op, ast.RShift) and left and isinstance(other, int) and other >= 0 and bits.scale == 1:
-                    return ABits(bits.digest, bits.byteorder, Fraction(1, 2 ** other)) if False else self._unsupported_bits(op, site)
+                    # dropping the low bits of a big-endian integer = reading a shorter prefix of the digest
+                    dg = bits.digest
+                    unit = 8 if dg.kind == "bytes" else 4
+                    size = _digest_size(dg.algo)
+                    if bits.byteorder == "big" and dg.step is None and size is not None and other % unit == 0:
+                        per = 1 if dg.kind == "bytes" else 2
+                        lo = dg.lo or 0
+                        hi = dg.hi if dg.hi is not None else size * per
+                        if 0 <= lo <= hi <= size * per and other // unit <= hi - lo:
+                            return ABits(ADigest(dg.algo, dg.data, dg.kind, lo, hi - other // unit, None), "big", Fraction(1))
+                    raise Unsupported(f"right shift of the hash integer by {other} bits at {site}")
             raise Unsupported(f"operator {type(op).__name__} on the hash integer at {site}")
         if isinstance(a, Num) or isinstance(b, Num):
             ea, eb = _to_expr(a), _to_expr(b)
@@ -1689,6 +1704,17 @@ class Interp:
     def order(self, op, a, b, site):
         if isinstance(a, Num) or isinstance(b, Num):
             return self.num_compare(type(op).__name__, a, b, site)
+
+        def _known_text(k):
+            # identifier names (and text assembled from them) are known in every shape, as in sorted()
+            if isinstance(k, Sym) and k.kind == "ident":
+                return k.name
+            if isinstance(k, Tmpl) and all(isinstance(p_, str) or (p_.sym.kind == "ident" and p_.render == "str") for p_ in k.parts):
+                return "".join(p_ if isinstance(p_, str) else p_.sym.name for p_ in k.parts)
+            return None
+        ta, tb = _known_text(a), _known_text(b)
+        if ta is not None and tb is not None and (isinstance(a, Sym) or isinstance(b, Sym)):
+            return {ast.Lt: ta < tb, ast.LtE: ta <= tb, ast.Gt: ta > tb, ast.GtE: ta >= tb}[type(op)]
         if isinstance(a, MinLen) and isinstance(b, int):
             if isinstance(op, ast.Gt) and a.n > b:
                 return True
@@ -1982,6 +2008,19 @@ class Interp:
             init = None
         if init is None and self._record_fields(cv) is not None:
             fields = self._record_fields(cv)
+
+            def _no_init(dflt):
+                # dataclasses.field(init=False): not a constructor parameter; set by __post_init__ (or from its default)
+                return isinstance(dflt, ast.Call) and (dotted(dflt.func) or "").split(".")[-1] == "field" and any(
+                    k_.arg == "init" and isinstance(k_.value, ast.Constant) and k_.value.value is False for k_ in dflt.keywords)
+            later = [f_ for f_ in fields if _no_init(f_[1])]
+            fields = [f_ for f_ in fields if not _no_init(f_[1])]
+            for nme, dflt in later:
+                kw_ = {k_.arg: k_.value for k_ in dflt.keywords}
+                if "default" in kw_:
+                    o.attrs[nme] = self.eval(kw_["default"], Env(cv.mod, {}))
+                elif "default_factory" in kw_:
+                    o.attrs[nme] = self.apply(self.eval(kw_["default_factory"], Env(cv.mod, {})), [], {}, site)
             names = [f_[0] for f_ in fields]
             if len(args) > len(names):
                 raise RaiseSig("TypeError", site, f"{cv.name}() takes {len(names)} positional arguments")
@@ -2345,6 +2384,8 @@ class Interp:
                 if keep:
                     out.append(x)
             return AList(out, "list")
+        if name == "object.__setattr__" and len(args) == 3:
+            return self.builtin("setattr", args, kwargs, site)
         if "." in name and args:          # unbound method of a builtin type: str.lower(x) == x.lower()
             return self.method(args[0], name.split(".", 1)[1], args[1:], kwargs, site)
         if name == "str":
@@ -2542,7 +2583,7 @@ class Interp:
         if name in ("id", "hash"):
             self.entropy.append((name + "()", site))
             raise Unsupported(f"{name}() at {site}: process-dependent value")
-        if name == "setattr" and len(args) == 3 and isinstance(args[1], Tmpl) and args[1].is_literal():
+        if name in ("setattr", "object.__setattr__") and len(args) == 3 and isinstance(args[1], Tmpl) and args[1].is_literal():
             o = args[0]
             if isinstance(o, (Obj, TokenVal)):
                 o.attrs[args[1].text()] = args[2]
@@ -3265,6 +3306,15 @@ def _describe(v):
     if isinstance(v, Sym):
         return v.src
     return repr(v)[:40]
+
+
+def _digest_size(algo):
+    """Digest length in bytes of a hashlib algorithm (a constant of the algorithm)."""
+    import hashlib as _h
+    try:
+        return _h.new(algo).digest_size if algo in _h.algorithms_guaranteed and not algo.startswith("shake") else None
+    except Exception:  # noqa: BLE001
+        return None
 
 
 def _isnum(v):
